@@ -24,6 +24,10 @@ type c09Case struct {
 	// how the tokenizer gets its configuration: the order of the setter calls, a SetEndOfLine call somewhere among
 	// them, and setter calls with an invalid value (they panic by contract and must leave nothing behind)
 	Setup []string `json:"setup,omitempty"` // sequence out of: seps quotes eol:<text> badseps badquotes use:<text>
+	// Alias: how the caller holds the lists it passes. 1 = separators and quote symbols are neighbouring sub-slices of
+	// one array (the first with spare capacity reaching into the second); 2 = one buffer per setting, first passed with
+	// other (valid) content, then overwritten with the real content and passed again
+	Alias int `json:"alias,omitempty"`
 }
 
 // c09Configure applies the configuration calls; "badseps" / "badquotes" are calls the tokenizer must reject
@@ -37,12 +41,30 @@ func c09Configure(t *csv.CsvTokenizer, c c09Case) {
 		defer func() { recover() }()
 		f()
 	}
+	seps, quotes := c.Seps, c.Quotes
+	if c.Alias == 1 {
+		d := append(append(append([]rune{}, c.Seps...), c.Quotes...), 'p', 'a', 'd')
+		seps, quotes = d[:len(c.Seps)], d[len(c.Seps):len(c.Seps)+len(c.Quotes)]
+	}
+	decoys := []rune{'\x01', '\x02', '\x03', '\x04', '\x05'}
 	for _, s := range setup {
 		switch {
 		case s == "seps":
-			t.SetFieldSeparators(c.Seps)
+			if c.Alias == 2 {
+				buf := append([]rune{}, decoys[:len(c.Seps)]...)
+				t.SetFieldSeparators(buf)
+				copy(buf, c.Seps)
+				seps = buf
+			}
+			t.SetFieldSeparators(seps)
 		case s == "quotes":
-			t.SetQuoteSymbols(c.Quotes)
+			if c.Alias == 2 {
+				buf := append([]rune{}, decoys[len(decoys)-len(c.Quotes):]...)
+				t.SetQuoteSymbols(buf)
+				copy(buf, c.Quotes)
+				quotes = buf
+			}
+			t.SetQuoteSymbols(quotes)
 		case strings.HasPrefix(s, "eol:"):
 			t.SetEndOfLine(strings.TrimPrefix(s, "eol:"))
 		case strings.HasPrefix(s, "use:"):
@@ -356,8 +378,8 @@ func TestC09_ExhaustiveEveryCharacter(t *testing.T) {
 func TestC09_Rapid(t *testing.T) {
 	rec := evid.New("C09", "TestC09_Rapid", "C09", c09Rule+"; rapid: 1-3 separators from {, ; TAB | space x § ‖}, 1-2 quotes from {\" ' ` « “}, tables 1-6 x 1-5, fields 0-12 characters over the BMP up to U+FFFE weighted to separators, quotes, CR/LF, empty and non-Latin text")
 	defer finish(t, rec)
-	sepPool := []rune{',', ';', '\t', '|', ' ', 'x', '§', '‖'}
-	quotePool := []rune{'"', '\'', '`', '«', '“'}
+	sepPool := []rune{',', ';', '\t', '|', ' ', 'x', '§', '‖', '‗', ':'}
+	quotePool := []rune{'"', '\'', '`', '«', '“', '”', '»'} // with neighbouring code points (U+201C / U+201D)
 	runRapid(t, pick(30000, 250000), 9, func(rt *rapid.T) {
 		seps := rapid.SliceOfNDistinct(rapid.SampledFrom(sepPool), 1, 3, func(r rune) rune { return r }).Draw(rt, "seps")
 		quotes := rapid.SliceOfNDistinct(rapid.SampledFrom(quotePool), 1, 2, func(r rune) rune { return r }).Draw(rt, "quotes")
@@ -379,6 +401,9 @@ func TestC09_Rapid(t *testing.T) {
 					c.Setup = append(c.Setup, valid[pos])
 				}
 			}
+		}
+		if rapid.IntRange(0, 3).Draw(rt, "aliased") == 0 {
+			c.Alias = rapid.IntRange(1, 2).Draw(rt, "alias")
 		}
 		rowsN := rapid.IntRange(1, 6).Draw(rt, "rows")
 		if rapid.IntRange(0, 19).Draw(rt, "bigtable") == 0 {
